@@ -11,6 +11,9 @@ Variable t_new : list val -> val.
 (* the functions these call that are not translated here (by name, receiver first): the theorems
    state what they assume of them *)
 Variable ext : string -> list val -> val.
+(* operations on the channel ends a handle holds (self.tx.send(m), self.rx.recv()): given the name,
+   the arguments and self, the result and self afterwards *)
+Variable ext_st : string -> list val -> val -> val * val.
 
 
 (* ---- /repo/src/io_loop/handshake_state.rs :: HandshakeState.process ---- *)
@@ -72,22 +75,23 @@ match scrut_3 with
     match args_ with
     | [a_13; a_14] => let v_15 := (ext "Close::try_from" [(VN 0); frame]) in
 let rest_16 := fun _ : unit =>
-let v_17 := (ext "OpenOk::try_from" [(VN 0); frame]) in
-match v_17 with
+let tried_17 := (ext "OpenOk::try_from" [(VN 0); frame]) in
+match tried_17 with
 | VC "Err" [err_19] => (self, inner, (VC "Err" [err_19]))
 | VC "Ok" [okval_18] =>
-let self_20 := (VC "HandshakeState::Done" [a_13; a_14]) in
-(self_20, inner, (VC "Ok" [(VC "()" [])]))
+let v_20 := okval_18 in
+let self_21 := (VC "HandshakeState::Done" [a_13; a_14]) in
+(self_21, inner, (VC "Ok" [(VC "()" [])]))
 | _ => (self, inner, VStuck)
 end in
 match v_15 with
 | VC c_ args_ =>
   if (c_ =? "Ok")%string then
     match args_ with
-    | [a_21] => let inner_22 := v_log "push_method" [(VN 0); (VC "AmqpConnection::CloseOk" [(VC "CloseOk" [])])] inner in
-let inner_23 := v_log "seal_writes" [] inner_22 in
-let self_24 := (VC "HandshakeState::ServerClosing" [a_21]) in
-(self_24, inner_23, (VC "Ok" [(VC "()" [])]))
+    | [a_22] => let inner_23 := v_log "push_method" [(VN 0); (VC "AmqpConnection::CloseOk" [(VC "CloseOk" [])])] inner in
+let inner_24 := v_log "seal_writes" [] inner_23 in
+let self_25 := (VC "HandshakeState::ServerClosing" [a_22]) in
+(self_25, inner_24, (VC "Ok" [(VC "()" [])]))
     | _ => rest_16 tt
     end
   else rest_16 tt
@@ -102,20 +106,22 @@ match scrut_3 with
 | VC c_ args_ =>
   if (c_ =? "HandshakeState::Tune")%string then
     match args_ with
-    | [a_25; a_26] => let v_27 := (ext "Tune::try_from" [(VN 0); frame]) in
-match v_27 with
-| VC "Err" [err_29] => (self, inner, (VC "Err" [err_29]))
-| VC "Ok" [okval_28] =>
-let v_30 := (ext "make_tune_ok" [a_25; okval_28]) in
-match v_30 with
-| VC "Err" [err_32] => (self, inner, (VC "Err" [err_32]))
-| VC "Ok" [okval_31] =>
-let inner_33 := v_log "start_heartbeats" [(v_field "heartbeat" okval_31)] inner in
-let inner_34 := v_log "push_method" [(VN 0); (VC "AmqpConnection::TuneOk" [okval_31])] inner_33 in
-let v_35 := (ext "make_open" [a_25]) in
-let inner_36 := v_log "push_method" [(VN 0); (VC "AmqpConnection::Open" [v_35])] inner_34 in
-let self_37 := (VC "HandshakeState::Open" [okval_31; a_26]) in
-(self_37, inner_36, (VC "Ok" [(VC "()" [])]))
+    | [a_26; a_27] => let tried_28 := (ext "Tune::try_from" [(VN 0); frame]) in
+match tried_28 with
+| VC "Err" [err_30] => (self, inner, (VC "Err" [err_30]))
+| VC "Ok" [okval_29] =>
+let v_31 := okval_29 in
+let tried_32 := (ext "make_tune_ok" [a_26; v_31]) in
+match tried_32 with
+| VC "Err" [err_34] => (self, inner, (VC "Err" [err_34]))
+| VC "Ok" [okval_33] =>
+let v_35 := okval_33 in
+let inner_36 := v_log "start_heartbeats" [(v_field "heartbeat" v_35)] inner in
+let inner_37 := v_log "push_method" [(VN 0); (VC "AmqpConnection::TuneOk" [v_35])] inner_36 in
+let v_38 := (ext "make_open" [a_26]) in
+let inner_39 := v_log "push_method" [(VN 0); (VC "AmqpConnection::Open" [v_38])] inner_37 in
+let self_40 := (VC "HandshakeState::Open" [v_35; a_27]) in
+(self_40, inner_39, (VC "Ok" [(VC "()" [])]))
 | _ => (self, inner, VStuck)
 end
 | _ => (self, inner, VStuck)
@@ -129,19 +135,19 @@ match scrut_3 with
 | VC c_ args_ =>
   if (c_ =? "HandshakeState::Secure")%string then
     match args_ with
-    | [a_38; a_39] => let v_40 := (ext "Secure::try_from" [(VN 0); frame]) in
-let rest_41 := fun _ : unit =>
-let self_42 := (VC "HandshakeState::Tune" [a_38; a_39]) in
-(gen_HandshakeState_process fuel_ self_42 inner frame) in
-match v_40 with
+    | [a_41; a_42] => let v_43 := (ext "Secure::try_from" [(VN 0); frame]) in
+let rest_44 := fun _ : unit =>
+let self_45 := (VC "HandshakeState::Tune" [a_41; a_42]) in
+(gen_HandshakeState_process fuel_ self_45 inner frame) in
+match v_43 with
 | VC c_ args_ =>
   if (c_ =? "Ok")%string then
     match args_ with
-    | [a_43] => (self, inner, (VC "Err" [VC "SaslSecureNotSupported" []]))
-    | _ => rest_41 tt
+    | [a_46] => (self, inner, (VC "Err" [VC "SaslSecureNotSupported" []]))
+    | _ => rest_44 tt
     end
-  else rest_41 tt
-| _ => rest_41 tt
+  else rest_44 tt
+| _ => rest_44 tt
 end
     | _ => next_5 tt
     end
@@ -152,21 +158,23 @@ match scrut_3 with
 | VC c_ args_ =>
   if (c_ =? "HandshakeState::Start")%string then
     match args_ with
-    | [a_44] => let v_45 := (ext "Start::try_from" [(VN 0); frame]) in
-match v_45 with
-| VC "Err" [err_47] => (self, inner, (VC "Err" [err_47]))
-| VC "Ok" [okval_46] =>
-let v_48 := (ext "make_start_ok" [a_44; okval_46]) in
-match v_48 with
+    | [a_47] => let tried_48 := (ext "Start::try_from" [(VN 0); frame]) in
+match tried_48 with
 | VC "Err" [err_50] => (self, inner, (VC "Err" [err_50]))
 | VC "Ok" [okval_49] =>
-match okval_49 with
+let v_51 := okval_49 in
+let tried_52 := (ext "make_start_ok" [a_47; v_51]) in
+match tried_52 with
+| VC "Err" [err_54] => (self, inner, (VC "Err" [err_54]))
+| VC "Ok" [okval_53] =>
+let v_55 := okval_53 in
+match v_55 with
 | VC c_ args_ =>
   if (c_ =? "tuple")%string then
     match args_ with
-    | [a_51; a_52] => let inner_53 := v_log "push_method" [(VN 0); (VC "AmqpConnection::StartOk" [a_51])] inner in
-let self_54 := (VC "HandshakeState::Secure" [a_44; a_52]) in
-(self_54, inner_53, (VC "Ok" [(VC "()" [])]))
+    | [a_56; a_57] => let inner_58 := v_log "push_method" [(VN 0); (VC "AmqpConnection::StartOk" [a_56])] inner in
+let self_59 := (VC "HandshakeState::Secure" [a_47; a_57]) in
+(self_59, inner_58, (VC "Ok" [(VC "()" [])]))
     | _ => (self, inner, VStuck)
     end
   else (self, inner, VStuck)
@@ -185,7 +193,7 @@ match v_1 with
 | VC c_ args_ =>
   if (c_ =? "AMQPFrame::Heartbeat")%string then
     match args_ with
-    | [a_55] => (if v_eqb a_55 (VN 0) then (self, inner, (VC "Ok" [(VC "()" [])])) else rest_2 tt)
+    | [a_60] => (if v_eqb a_60 (VN 0) then (self, inner, (VC "Ok" [(VC "()" [])])) else rest_2 tt)
     | _ => rest_2 tt
     end
   else rest_2 tt
